@@ -322,7 +322,9 @@ RunResult run_plan(const std::vector<std::string>& plan, uint64_t run_index, sim
          ex.prog = prog;
          ex.run_index = run_index;
          ex.want_trace = want_trace;
+         sim::Watchdog::arm(); // one history is at most a few dozen calls of milliseconds each
          ex.run(plan);
+         sim::Watchdog::disarm();
          rr.hash = ex.log.h; rr.calls = ex.calls; rr.op = ex.op_index;
          if (want_trace) rr.trace = ex.trace;
          if (!ex.viol.empty()) { rr.sig = ex.viol[0].sig; rr.detail = ex.viol[0].detail; rr.op = ex.viol[0].op; return rr; }
@@ -394,8 +396,21 @@ int main(int argc, char** argv)
          for (auto& l : plan) std::printf("OP %s\n", l.c_str());
          std::printf("DONE\n");
       } else if (t[0] == "EXEC") {
-         const auto plan = sim::read_plan_file(t[1].c_str());
-         RunResult rr = run_plan(plan, 0, nullptr, &prog, true);
+         // a plan may consist of several histories separated by "newhistory" lines: they are executed one after the
+         // other in this process (all handles freed in between), which is how a seeded worker executes its runs;
+         // the verdict is that of the LAST history; the earlier ones are its context (they may violate themselves: in a
+         // tree with a defect most contexts do, and the candidate under examination is the last history)
+         const auto all = sim::read_plan_file(t[1].c_str());
+         std::vector<std::vector<std::string>> hist(1);
+         for (auto& l : all) { const auto tk = sim::split(l); if (!tk.empty() && tk[0] == "newhistory") { if (!hist.back().empty()) hist.emplace_back(); } else hist.back().push_back(l); }
+         if (hist.back().empty() && hist.size() > 1) hist.pop_back();
+         RunResult rr; sim::Fnv hh; uint64_t calls = 0;
+         for (size_t k = 0; k < hist.size(); ++k) {
+            rr = run_plan(hist[k], k, nullptr, &prog, k + 1 == hist.size() || hist.size() < 8);
+            hh.u64(rr.hash); calls += rr.calls;
+            if (!rr.sig.empty() && k + 1 == hist.size() && hist.size() > 1) rr.detail = "history " + std::to_string(k + 1) + " of " + std::to_string(hist.size()) + " in this process: " + rr.detail;
+         }
+         if (hist.size() > 1) { rr.hash = hh.h; rr.calls = calls; }
          for (auto& l : rr.trace) std::printf("TRACE %s\n", l.c_str());
          if (!rr.detail.empty()) std::printf("DETAIL op=%zu %s\n", rr.op, rr.detail.c_str());
          std::printf("RESULT sig=%s hash=%016" PRIx64 " calls=%" PRIu64 "\nDONE\n", rr.sig.empty() ? "OK" : rr.sig.c_str(), rr.hash, rr.calls);
